@@ -413,7 +413,9 @@ func locateFirst(u *gengotypes.Universe) []proto.PkgReport {
 				if !obj.Pos().IsValid() {
 					continue
 				}
-				if ipk := u.Package(ip.Path()); ipk != nil && !isNilPkg(ipk) && outsideModule(ipk, filepath.Dir(ipk.FileSet().Position(obj.Pos()).Filename)) {
+				// (decided from the position alone: asking the universe for the package here would be the very
+				// request this report is about)
+				if fn := P.FileSet().Position(obj.Pos()).Filename; strings.Contains(fn, "/go-build/") || strings.HasPrefix(filepath.Base(fn), "_cgo_") {
 					continue // declared in a file the toolchain synthesised (cgo)
 				}
 				r := proto.PkgReport{Path: ip.Path(), Module: true}
